@@ -175,3 +175,14 @@ def describe(tier):
             "str.count/str.join of CPython as the reference",
         ],
     )
+
+
+def standalone(case):
+    if case.get("kind") != "string":
+        return None
+    return (
+        "from cdd.shared.cst import cst_parse\nfrom cdd.shared.cst_utils import cst_scanner\ns = {s!r}\n"
+        "assert ''.join(cst_scanner(s)) == s, cst_scanner(s)\nnodes = cst_parse(s)\nassert ''.join(n.value for n in nodes) == s, nodes\n"
+        "assert nodes[0].line_no_start == 1 and nodes[-1].line_no_end == 1 + s.count('\\n'), nodes\n"
+        "assert all(n.line_no_end - n.line_no_start == n.value.count('\\n') for n in nodes), nodes\n"
+    ).format(s=case["string"])
